@@ -175,7 +175,7 @@ class FutureImplBase : private FutureImplResultMember<Result> {
 
   void decRefCountMaybeDestroy() {
     DISPENSO_TSAN_ANNOTATE_HAPPENS_BEFORE(&refCount_);
-    if (refCount_.fetch_sub(1, std::memory_order_release) == 1) {
+    if (refCount_.fetch_sub(1, std::memory_order_acq_rel) == 1) {
       DISPENSO_TSAN_ANNOTATE_HAPPENS_AFTER(&refCount_);
       dealloc();
     }
